@@ -1,38 +1,2 @@
-/- `GQ` is a commutative ring (proved from the `Rat` field laws), so that `ring` applies to the
-coefficient type the driver executes. -/
-import OFV.Core.GQ
-import Mathlib.Tactic.Ring
-import Mathlib.Data.Rat.Defs
-
-namespace OFV
-namespace GQ
-
-instance : Zero GQ := ⟨0⟩
-instance : One GQ := ⟨1⟩
-
-instance instCommRing : CommRing GQ where
-  add := (· + ·)
-  mul := (· * ·)
-  neg := Neg.neg
-  sub := (· - ·)
-  zero := 0
-  one := 1
-  add_assoc a b c := by apply GQ.ext <;> simp <;> ring
-  zero_add a := by apply GQ.ext <;> simp
-  add_zero a := by apply GQ.ext <;> simp
-  add_comm a b := by apply GQ.ext <;> simp <;> ring
-  mul_assoc a b c := by apply GQ.ext <;> simp <;> ring
-  one_mul a := by apply GQ.ext <;> simp
-  mul_one a := by apply GQ.ext <;> simp
-  left_distrib a b c := by apply GQ.ext <;> simp <;> ring
-  right_distrib a b c := by apply GQ.ext <;> simp <;> ring
-  mul_comm a b := by apply GQ.ext <;> simp <;> ring
-  zero_mul a := by apply GQ.ext <;> simp
-  mul_zero a := by apply GQ.ext <;> simp
-  neg_add_cancel a := by apply GQ.ext <;> simp
-  sub_eq_add_neg a b := by apply GQ.ext <;> simp <;> ring
-  nsmul := nsmulRec
-  zsmul := zsmulRec
-
-end GQ
-end OFV
+/- the `CommRing GQ` instance lives in the shared module -/
+import OFV.Proofs.GQRing
